@@ -74,6 +74,10 @@ struct _CandidatePairKeepalive
   guint stream_id;
   guint component_id;
   StunTimer timer;
+  /* transaction of the keepalive check last sent on the pair: forgotten when
+   * the next one goes out, whether it was answered or not */
+  gboolean has_transaction;
+  StunTransactionId transaction_id;
 };
 
 struct _CandidatePairConsentCheck
